@@ -2205,8 +2205,9 @@ func (err *SchemaError) Error() string {
 			panic(err)
 		}
 		buf.WriteString("\nValue:\n  ")
-		if err := encoder.Encode(err.Value); err != nil {
-			panic(err)
+		if encErr := encoder.Encode(err.Value); encErr != nil {
+			// values JSON cannot express (NaN, infinities) are printed as Go prints them
+			fmt.Fprintf(buf, "%v\n", err.Value)
 		}
 	}
 
